@@ -25,6 +25,8 @@ import (
 
 	plugin "github.com/hashicorp/go-plugin"
 	"google.golang.org/grpc"
+	"google.golang.org/grpc/credentials"
+	"google.golang.org/grpc/peer"
 	"google.golang.org/protobuf/types/known/wrapperspb"
 )
 
@@ -76,8 +78,39 @@ type whoServer interface {
 }
 type whoImpl struct{ tag string }
 
-func (w *whoImpl) Who(context.Context, *wrapperspb.StringValue) (*wrapperspb.StringValue, error) {
-	return wrapperspb.String(w.tag), nil
+// Who answers with the tag and how the calling peer is authenticated: "tag;tls" when the
+// connection carries verified TLS peer certificates, "tag;plain" otherwise.
+func (w *whoImpl) Who(ctx context.Context, _ *wrapperspb.StringValue) (*wrapperspb.StringValue, error) {
+	sec := "plain"
+	if p, ok := peer.FromContext(ctx); ok {
+		if ti, ok := p.AuthInfo.(credentials.TLSInfo); ok && len(ti.State.PeerCertificates) > 0 {
+			sec = "tls"
+		}
+	}
+	return wrapperspb.String(w.tag + ";" + sec), nil
+}
+
+// LastSec remembers, per brokered id, how the server side saw the last Who caller.
+var (
+	secMu   sync.Mutex
+	LastSec = map[uint32]string{}
+)
+
+func splitWho(id uint32, v string) string {
+	if i := strings.LastIndex(v, ";"); i >= 0 {
+		secMu.Lock()
+		LastSec[id] = v[i+1:]
+		secMu.Unlock()
+		return v[:i]
+	}
+	return v
+}
+
+// SecOf returns "tls", "plain" or "" (unknown / net/rpc) for the last Who call on id made from this process.
+func SecOf(id uint32) string {
+	secMu.Lock()
+	defer secMu.Unlock()
+	return LastSec[id]
 }
 
 var whoDesc = grpc.ServiceDesc{
@@ -168,17 +201,17 @@ func (g GRPCAPI) DialWho(id uint32) (string, error) {
 	if err := conn.Invoke(ctx, "/verif.Who/Who", wrapperspb.String(""), out); err != nil {
 		return "", err
 	}
-	return out.Value, nil
+	return splitWho(id, out.Value), nil
 }
 
-func whoCall(conn *grpc.ClientConn, d time.Duration) (string, error) {
+func whoCall(id uint32, conn *grpc.ClientConn, d time.Duration) (string, error) {
 	ctx, cancel := context.WithTimeout(context.Background(), d)
 	defer cancel()
 	out := new(wrapperspb.StringValue)
 	if err := conn.Invoke(ctx, "/verif.Who/Who", wrapperspb.String(""), out); err != nil {
 		return "", err
 	}
-	return out.Value, nil
+	return splitWho(id, out.Value), nil
 }
 
 func (g GRPCAPI) DialKeep(id uint32) (string, error) {
@@ -189,7 +222,7 @@ func (g GRPCAPI) DialKeep(id uint32) (string, error) {
 	keptMu.Lock()
 	keptGRPC[keptKey(g.B, id)] = conn
 	keptMu.Unlock()
-	return whoCall(conn, 12*time.Second)
+	return whoCall(id, conn, 12*time.Second)
 }
 
 func (g GRPCAPI) CallKept(id uint32) (string, error) {
@@ -199,7 +232,7 @@ func (g GRPCAPI) CallKept(id uint32) (string, error) {
 	if conn == nil {
 		return "", errors.New("no kept connection")
 	}
-	return whoCall(conn, 10*time.Second)
+	return whoCall(id, conn, 10*time.Second)
 }
 
 // ---------------------------------------------------------------- the implementation behind a dispensed plugin
@@ -275,7 +308,7 @@ func (im *Impl) Do(c Cmd) Res {
 		if err != nil {
 			return Res{Err: err.Error()}
 		}
-		return Res{OK: true, S: tag}
+		return Res{OK: true, S: tag, L: []string{SecOf(c.ID)}}
 	case "dialkeep":
 		tag, err := im.Broker.DialKeep(c.ID)
 		if err != nil {
@@ -458,8 +491,12 @@ func (p *VPlugin) Client(b *plugin.MuxBroker, c *rpc.Client) (interface{}, error
 }
 
 // gRPC
+// PluginSideBroker is the broker handed to the serving side of the plugin (last one created).
+var PluginSideBroker BrokerAPI
+
 func (p *VPlugin) GRPCServer(b *plugin.GRPCBroker, s *grpc.Server) error {
 	api := GRPCAPI{b}
+	PluginSideBroker = api
 	if p.OnBroker != nil {
 		p.OnBroker(api)
 	}
@@ -534,6 +571,9 @@ type PluginCfg struct {
 	// StdioScript is written to the (swapped) process stdout/stderr as soon as serving starts,
 	// i.e. possibly before the host has attached.
 	StdioScript []StdioWrite `json:"stdio_script,omitempty"`
+	// OnShutdownServe: when the shutdown request arrives (hook grpc.shutdown), accept this brokered
+	// id first -- a broker message sent after the host has closed its broker.
+	OnShutdownServe uint32 `json:"on_shutdown_serve,omitempty"`
 }
 
 type StdioWrite struct {
